@@ -34,6 +34,14 @@ type InstSt GenSt[int]
 
 type Num int
 
+// alias declarations: whether an alias itself is mocked is left open, but it must never
+// cause its target to be mocked twice
+type AliasInst = Gen[int]
+
+type AliasIface = Exp
+
+type AliasStruct = St
+
 var _ unexp
 var _ q.Q
 `
@@ -319,6 +327,9 @@ func C07(c *core.Ctx) error {
 		var got []string
 		for _, f := range m.CollectProbe() {
 			for _, mk := range f.Mocks {
+				if strings.HasPrefix(mk.Iface, "Alias") {
+					continue // mocking an alias declaration under its own name: don't care
+				}
 				got = append(got, fmt.Sprintf("%s|%s|%s", f.SrcPkg, mk.Iface, mk.Struct))
 			}
 		}
